@@ -39,6 +39,29 @@ def cut_points(data, before, after):
     return sorted(p for p in pts if 0 < p < len(data))
 
 
+def known_overlap_cut_points(data, before, after):
+    """the cut points of the KNOWN finding `symbol-overlapping-sets`: a byte in both sets that directly follows a
+    cut is consumed as the optional cut-before byte of the next atom and then does not end that atom, and a cut
+    that would fall before such a byte right after a cut-after byte is the same cut; i.e. scanning left to right,
+    an atom is: optional cut-before byte, bytes in neither set, then a cut-after byte / end / lookahead at a
+    cut-before byte.  Only a result equal to this scan is attributed to the known finding."""
+    pts, i, n = [], 0, len(data)
+    while i < n:
+        j = i
+        if data[j] in before:
+            j += 1
+        while j < n and data[j] not in before and data[j] not in after:
+            j += 1
+        if j < n and data[j] in after:
+            j += 1
+        if j == i:
+            j = i + 1
+        if j < n:
+            pts.append(j)
+        i = j
+    return pts
+
+
 def symbol_ok(parts, data, before, after):
     got, pos = [], 0
     for p in parts[:-1]:
@@ -86,7 +109,12 @@ def run(ck: Check):
         if err:
             key = None
             if atom == "symbol" and sets[0] is not None and set(sets[0]) & set(sets[1]):
-                key = "symbol-overlapping-sets"
+                got_pts, pos = [], 0
+                for p_ in t.parts[:-1]:
+                    pos += len(p_)
+                    got_pts.append(pos)
+                if got_pts == known_overlap_cut_points(region, sets[0], sets[1]) and b"".join(t.parts) == region:
+                    key = "symbol-overlapping-sets"
             ck.violation(f"[{atom} sets={sets}] {err}: {data!r} -> {t.parts!r}",
                          {"atom": atom, "data": data.hex(), "cut_before": None if sets[0] is None else sets[0].hex(),
                           "cut_after": None if sets[1] is None else sets[1].hex(), "parts": [p.hex() for p in t.parts]},
@@ -148,8 +176,13 @@ def cli(ck, r):
                 err = symbol_ok(lith.testcase.parts, data, before, after)
                 ck.nontrivial(("cli", before, after, data))
                 if err:
+                    got_pts, pos = [], 0
+                    for p_ in lith.testcase.parts[:-1]:
+                        pos += len(p_)
+                        got_pts.append(pos)
                     ck.violation(f"--cut-before {before!r} --cut-after {after!r}: {err}",
-                                 key="symbol-overlapping-sets" if set(before) & set(after) else None,
+                                 key="symbol-overlapping-sets" if (set(before) & set(after) and got_pts ==
+                                                                   known_overlap_cut_points(data, before, after)) else None,
                                  replay={"argv": ["-s", "--cut-before", before.decode(), "--cut-after", after.decode()],
                                   "data": data.hex(), "parts": [p.hex() for p in lith.testcase.parts]})
     finally:
